@@ -124,6 +124,63 @@ func VerifC03EmptyResultSet() {
 	v.Assert("C03.empty-resultset-is-error", err != nil && text == "")
 }
 
+// VerifC03ForeignMembers: the level sets are open to embedded Rego and rego_extensions, so a member
+// that is not a result object can sit among (or instead of) the results. Whatever BuildReport makes
+// of it - an error, a panic turned into an error by the entry points, or a report - a report that is
+// returned agrees with itself: conforms says whether the result list holds a Violation, and the
+// result key is there exactly when the list is not empty.
+func VerifC03ForeignMembers() {
+	foreign := []any{"checked-by-extension", json.Number("7"), true, []any{"x"}}[v.Choice("foreign", 4)]
+	level := []string{"violation", "warning", "info"}[v.Choice("level", 3)]
+	lists := map[string][]any{"violation": {}, "warning": {}, "info": {}}
+	// the foreign member before, after or without a genuine result of its level; a genuine
+	// result may sit in another level as well
+	switch v.Choice("layout", 3) {
+	case 0:
+		lists[level] = []any{foreign}
+	case 1:
+		lists[level] = []any{foreign, verifResult("a", 0)}
+	case 2:
+		lists[level] = []any{verifResult("a", 0), foreign}
+	}
+	if v.Bool("other") {
+		other := []string{"violation", "warning", "info"}[v.Choice("otherLevel", 3)]
+		lists[other] = append(lists[other], verifResult("o", 1))
+	}
+	rs := verifResultSetOf("p", lists["violation"], lists["warning"], lists["info"])
+	text, err, panicked := verifBuildReportRecovered(&rs)
+	if panicked || err != nil {
+		v.Reach("refused")
+		v.Assert("C03.foreign.no-verdict-with-error", text == "")
+		return
+	}
+	v.Reach("reported")
+	rep, _, ok := verifReportParts(text)
+	v.Assert("C03.single-instance", ok)
+	if !ok {
+		return
+	}
+	results, has := rep["result"].([]any)
+	violations := 0
+	for _, r := range results {
+		if m, isMap := r.(types.ObjectMap); isMap && m["resultSeverity"] == "http://www.w3.org/ns/shacl#Violation" {
+			violations++
+		}
+	}
+	v.Assert("C03.conforms", rep["conforms"] == (violations == 0))
+	v.Assert("C03.result-key", has == (len(results) > 0))
+}
+
+func verifBuildReportRecovered(rs *rego.ResultSet) (text string, err error, panicked bool) {
+	defer func() {
+		if r := recover(); r != nil {
+			text, panicked = "", true
+		}
+	}()
+	text, err = BuildReport(rs, verifClock{}, c.DefaultReportConfiguration())
+	return
+}
+
 // verifReportParts returns the report node and the @context of the dialect instance: from the
 // structure handed to the encoder under the symbolic executor, from the JSON text natively.
 func verifReportParts(text string) (rep types.ObjectMap, ctx types.ObjectMap, ok bool) {
